@@ -477,3 +477,333 @@ Section SignedLcm.
     rewrite Vr, Vp, Vq. exact Hlf.
   Qed.
 End SignedLcm.
+
+(* ================= conversions used by the roots (modelled in Model/NumTraits.v) ================= *)
+
+Lemma lor_disjoint out d s : 0 <= s -> 0 <= out < 2 ^ s -> 0 <= d -> Z.lor out (d * 2 ^ s) = out + d * 2 ^ s.
+Proof.
+  intros Hs Ho Hd.
+  assert (Hland : Z.land out (d * 2 ^ s) = 0).
+  { apply Z.bits_inj'. intros k Hk. rewrite Z.land_spec, Z.bits_0.
+    destruct (Z_lt_le_dec k s) as [Hlt|Hge].
+    - rewrite Z.mul_pow2_bits_low by lia. apply andb_false_r.
+    - rewrite <- (Z.mod_small out (2 ^ s)) by lia. rewrite Z.mod_pow2_bits_high by lia. reflexivity. }
+  rewrite <- Z.lxor_lor by exact Hland. symmetry. apply Z.add_nocarry_lxor. exact Hland.
+Qed.
+
+Lemma to_uint_loop_spec w : 0 < w -> forall (k : nat) ds i out,
+  (Z.of_nat k + i) * w = 128 -> 0 <= i -> 0 <= out < 2 ^ (i * w) -> Forall (digit_ok w) ds ->
+  to_uint_loop w 128 ds i out = (out + 2 ^ (i * w) * uval w (firstn k ds), skipn k ds).
+Proof.
+  intros Hw. induction k as [|k IH]; intros ds i out Hk Hi Ho Hds.
+  - destruct ds as [|d r]; cbn [to_uint_loop firstn skipn uval].
+    + f_equal. lia.
+    + destruct (Z.leb_spec 128 (i * w)); [|lia]. f_equal. lia.
+  - destruct ds as [|d r]; cbn [to_uint_loop firstn skipn uval].
+    + f_equal. lia.
+    + inversion Hds as [|x l Hd Hr]; subst. unfold digit_ok in Hd.
+      destruct (Z.leb_spec 128 (i * w)); [nia|].
+      assert (Hiw : 0 <= i * w) by nia.
+      assert (Hp : 0 < 2 ^ (i * w)) by (apply Z.pow_pos_nonneg; lia).
+      assert (Hsmall : d * 2 ^ (i * w) < 2 ^ 128).
+      { assert (d * 2 ^ (i * w) < B w * 2 ^ (i * w)) by nia.
+        assert (B w * 2 ^ (i * w) = 2 ^ (w + i * w)) by (unfold B; rewrite Z.pow_add_r by lia; reflexivity).
+        assert (2 ^ (w + i * w) <= 2 ^ 128) by (apply Z.pow_le_mono_r; nia). lia. }
+      rewrite Z.mod_small by nia.
+      rewrite lor_disjoint by lia.
+      rewrite (IH r (i + 1) (out + d * 2 ^ (i * w))); try lia; try assumption.
+      * f_equal. replace ((i + 1) * w) with (i * w + w) by ring. rewrite Z.pow_add_r by lia. unfold B. ring.
+      * replace ((i + 1) * w) with (i * w + w) by ring. rewrite Z.pow_add_r by lia. fold (B w). nia.
+Qed.
+
+Definition u128_width_ok (w : Z) : Prop := 128 < w \/ 128 mod w = 0.
+
+Lemma is_zero_Forall w ds : 0 <= w -> Forall (digit_ok w) ds -> is_zero ds = (uval w ds =? 0).
+Proof. intros Hw Hf. apply (is_zero_spec w (length ds)); [exact Hw|split; [reflexivity|exact Hf]]. Qed.
+
+Theorem U_to_u128_spec w n a : 0 < w -> u128_width_ok w -> (0 < n)%nat -> wf w n a ->
+  U_to_u128 w a = Ret (if uval w a <? 2 ^ 128 then Some (uval w a) else None).
+Proof.
+  intros Hw Hok Hn Ha. unfold U_to_u128.
+  destruct (Z.ltb_spec 128 w) as [Hbig|Hsmall].
+  - destruct n as [|n']; [lia|]. destruct (wf_inv_S _ _ _ Ha) as (d & r & -> & Hd & Hr).
+    unfold digit_ok in Hd. cbn [uval].
+    pose proof (uval_bounds w n' r ltac:(lia) Hr) as Hbr.
+    assert (HB : 2 ^ 128 < B w) by (unfold B; apply Z.pow_lt_mono_r; lia).
+    rewrite (is_zero_spec w n' r ltac:(lia) Hr).
+    destruct (Z.eqb_spec d (d mod 2 ^ 128)) as [E|E]; cbn [negb].
+    + assert (d < 2 ^ 128) by (rewrite E; apply Z.mod_pos_bound; lia).
+      rewrite Z.mod_small by lia.
+      destruct (Z.eqb_spec (uval w r) 0) as [E0|E0].
+      * rewrite E0. replace (d + B w * 0) with d by lia. destruct (Z.ltb_spec d (2 ^ 128)); [reflexivity|lia].
+      * destruct (Z.ltb_spec (d + B w * uval w r) (2 ^ 128)); [nia|reflexivity].
+    + assert (2 ^ 128 <= d).
+      { destruct (Z_lt_le_dec d (2 ^ 128)); [|assumption]. rewrite Z.mod_small in E by lia. contradiction. }
+      destruct (Z.ltb_spec (d + B w * uval w r) (2 ^ 128)); [nia|reflexivity].
+  - destruct Hok as [Hok|Hok]; [lia|].
+    set (c := 128 / w).
+    assert (Hc : c * w = 128).
+    { unfold c. pose proof (Z.div_mod 128 w ltac:(lia)). lia. }
+    assert (Hc0 : 0 < c) by nia.
+    destruct Ha as [Hlen Hf].
+    rewrite (to_uint_loop_spec w Hw (Z.to_nat c) a 0 0); [|rewrite Z2Nat.id by lia; lia|lia|rewrite Z.mul_0_l; cbn; lia|exact Hf].
+    rewrite Z.mul_0_l, Z.pow_0_r, Z.add_0_l, Z.mul_1_l.
+    set (k := Z.to_nat c).
+    assert (Hsplit : uval w a = uval w (firstn k a) + Mod w (length (firstn k a)) * uval w (skipn k a)).
+    { rewrite <- (firstn_skipn k a) at 1. apply uval_app. lia. }
+    assert (Hf12 : Forall (digit_ok w) (firstn k a) /\ Forall (digit_ok w) (skipn k a)).
+    { apply Forall_app. rewrite firstn_skipn. exact Hf. }
+    destruct Hf12 as [Hf1 Hf2].
+    pose proof (uval_bounds w (length (firstn k a)) (firstn k a) ltac:(lia) (conj eq_refl Hf1)) as Hb1.
+    pose proof (uval_bounds w (length (skipn k a)) (skipn k a) ltac:(lia) (conj eq_refl Hf2)) as Hb2.
+    assert (Hlk : (length (firstn k a) <= k)%nat) by apply firstn_le_length.
+    assert (HMk : Mod w k = 2 ^ 128).
+    { unfold Mod, k. rewrite Z2Nat.id by lia. f_equal. lia. }
+    assert (Hmono : Mod w (length (firstn k a)) <= 2 ^ 128).
+    { rewrite <- HMk. unfold Mod. apply Z.pow_le_mono_r; [lia|]. apply Z.mul_le_mono_nonneg_l; lia. }
+    rewrite (is_zero_Forall w _ ltac:(lia) Hf2).
+    destruct (Z.eqb_spec (uval w (skipn k a)) 0) as [E0|E0].
+    + rewrite E0, Z.mul_0_r, Z.add_0_r in Hsplit. rewrite Hsplit.
+      destruct (Z.ltb_spec (uval w (firstn k a)) (2 ^ 128)); [reflexivity|lia].
+    + assert (Hfull : length (firstn k a) = k).
+      { apply firstn_length_le. destruct (le_lt_dec k (length a)) as [|Hlt]; [assumption|].
+        rewrite skipn_all2 in E0 by lia. cbn in E0. contradiction. }
+      rewrite Hfull, HMk in Hsplit.
+      destruct (Z.ltb_spec (uval w a) (2 ^ 128)); [nia|reflexivity].
+Qed.
+
+Lemma from_uint_loop_spec w : 0 < w -> forall cnt n v, 0 <= v < 2 ^ (w * Z.of_nat cnt) -> v < Mod w n ->
+  exists r, from_uint_loop w cnt n v = Ret r /\ wf w n r /\ uval w r = v.
+Proof.
+  intros Hw. pose proof (B_pos w ltac:(lia)) as HB.
+  induction cnt as [|c IH]; intros n v Hv Hfit; cbn [from_uint_loop].
+  - rewrite Z.mul_0_r, Z.pow_0_r in Hv. exists (ZERO n). split; [reflexivity|]. split; [apply wf_ZERO; lia|].
+    rewrite uval_ZERO. lia.
+  - assert (Hdiv : 0 <= v / B w < 2 ^ (w * Z.of_nat c)).
+    { rewrite Nat2Z.inj_succ in Hv. replace (w * Z.succ (Z.of_nat c)) with (w + w * Z.of_nat c) in Hv by lia.
+      rewrite Z.pow_add_r in Hv by nia. fold (B w) in Hv.
+      split; [apply Z.div_pos; lia|]. apply Z.div_lt_upper_bound; lia. }
+    pose proof (Z.div_mod v (B w) ltac:(lia)) as Hdm. pose proof (Z.mod_pos_bound v (B w) HB) as Hmb.
+    destruct n as [|n'].
+    + rewrite Mod_0 in Hfit. assert (v = 0) by lia. subst v. rewrite Z.mod_0_l, Z.div_0_l by lia. cbn [Z.eqb].
+      destruct (IH O 0) as (r & Er & Wr & Vr); [split; [lia|apply Z.pow_pos_nonneg; nia]|rewrite Mod_0; lia|].
+      exists r. auto.
+    + rewrite Mod_S in Hfit by lia.
+      destruct (IH n' (v / B w) Hdiv) as (r & Er & Wr & Vr).
+      { apply Z.div_lt_upper_bound; lia. }
+      rewrite Er. cbn [omap]. exists (v mod B w :: r). split; [reflexivity|]. split.
+      * apply wf_cons. split; [unfold digit_ok; lia|exact Wr].
+      * cbn [uval]. rewrite Vr. lia.
+Qed.
+
+Lemma U_from_uint_spec w n ubits v : 0 < w -> 0 < ubits -> 0 <= v < 2 ^ ubits -> v < Mod w n ->
+  exists r, U_from_uint w n ubits v = Ret r /\ wf w n r /\ uval w r = v.
+Proof.
+  intros Hw Hu Hv Hfit. unfold U_from_uint. apply from_uint_loop_spec; [exact Hw| |exact Hfit].
+  split; [lia|]. rewrite Z2Nat.id by (apply Z.div_pos; lia).
+  assert (ubits <= w * ((ubits + w - 1) / w)).
+  { pose proof (Z.div_mod (ubits + w - 1) w ltac:(lia)). pose proof (Z.mod_pos_bound (ubits + w - 1) w Hw). lia. }
+  assert (2 ^ ubits <= 2 ^ (w * ((ubits + w - 1) / w))) by (apply Z.pow_le_mono_r; lia). lia.
+Qed.
+
+(* check_zero_or_one!: returns early exactly on 0 and 1 *)
+Lemma last_digit_index_from_zero ds : forall i idx, (1 <= i)%nat ->
+  last_digit_index_from i ds idx = O -> idx = O /\ is_zero ds = true.
+Proof.
+  induction ds as [|d r IH]; intros i idx Hi H; cbn [last_digit_index_from is_zero] in *.
+  - auto.
+  - destruct (Z.eqb_spec d 0) as [->|Hd].
+    + apply (IH (S i) idx); [lia|exact H].
+    + destruct (IH (S i) i ltac:(lia) H) as [E _]. lia.
+Qed.
+
+Lemma check_zero_or_one_true w n a : 0 < w -> wf w n a -> check_zero_or_one a = true ->
+  uval w a = 0 \/ uval w a = 1.
+Proof.
+  intros Hw Ha H. destruct a as [|d r]; [left; reflexivity|].
+  unfold check_zero_or_one in H. destruct (Nat.eqb_spec (last_digit_index (d :: r)) 0) as [E|E]; [|discriminate].
+  unfold last_digit_index in E. destruct (last_digit_index_from_zero r 1 0 ltac:(lia) E) as [_ Hz].
+  destruct n as [|n']; [destruct Ha as [Hl _]; discriminate|].
+  apply wf_cons in Ha. destruct Ha as [Hd Hr].
+  rewrite (is_zero_true w n' r ltac:(lia) Hr) in Hz. cbn [uval]. rewrite Hz.
+  apply orb_true_iff in H. destruct H as [H|H]; apply Z.eqb_eq in H; lia.
+Qed.
+
+(* ================= fixpoint ================= *)
+
+Lemma U_shr_unfold dbg w n a s : wf w n a -> 0 <= s < bits w n ->
+  U_shr dbg w a s = Ret (shr_pad_internal w false a s).
+Proof.
+  intros Ha Hs. unfold U_shr, U_strict_shr, U_checked_shr, U_wrapping_shr, U_overflowing_shr.
+  rewrite (wf_length _ _ _ Ha). destruct (Z.leb_spec (bits w n) s); [lia|]. destruct dbg; reflexivity.
+Qed.
+Lemma U_shl_unfold dbg w n a s : wf w n a -> 0 <= s < bits w n ->
+  U_shl dbg w a s = Ret (shl_internal w a s).
+Proof.
+  intros Ha Hs. unfold U_shl, U_strict_shl, U_checked_shl, U_wrapping_shl, U_overflowing_shl.
+  rewrite (wf_length _ _ _ Ha). destruct (Z.leb_spec (bits w n) s); [lia|]. destruct dbg; reflexivity.
+Qed.
+
+(* f computes F on the well-formed arguments whose value lies in [lo, hi] *)
+Definition closure_ok (w : Z) (n : nat) (f : list Z -> outcome (list Z)) (F : Z -> Z) (lo hi : Z) : Prop :=
+  forall s, wf w n s -> lo <= uval w s <= hi ->
+    exists s', f s = Ret s' /\ wf w n s' /\ uval w s' = F (uval w s).
+
+Lemma fixpoint_ok (UC : ucmp_spec) depth w n guess max_bits f F R :
+  0 < w -> wf w n guess -> 0 <= R -> R < uval w guess ->
+  closure_ok w n f F R (uval w guess) ->
+  (forall x, R <= x <= uval w guess -> R <= F x) ->
+  (forall x, R < x <= uval w guess -> F x < x) ->
+  uval w guess - R < 2 ^ Z.of_nat depth ->
+  exists r, fixpoint depth w guess max_bits f = Some (Ret r) /\ wf w n r /\ uval w r = R.
+Proof.
+  intros Hw Wg HR0 HRG Hcl Hge Hlt Hdepth.
+  set (G := uval w guess) in *.
+  unfold fixpoint.
+  destruct (Hcl guess Wg ltac:(lia)) as (xn & Exn & Wxn & Vxn). fold G in Vxn. rewrite Exn.
+  pose proof (Hlt G ltac:(lia)) as HFG. pose proof (Hge G ltac:(lia)) as HFG'.
+  (* the first loop does not iterate: f(guess) < guess *)
+  rewrite (run_pow2_done (fixpoint_up_step w (length guess) max_bits f) depth (guess, xn) (Ret (guess, xn))).
+  2:{ unfold fixpoint_up_step. rewrite (UC w n guess xn Hw Wg Wxn). fold G. rewrite Vxn.
+      destruct (Z.compare_spec G (F G)); cbn [cmp_lt]; try reflexivity; lia. }
+  (* the second loop *)
+  pose (Inv := fun st : list Z * list Z =>
+     wf w n (fst st) /\ wf w n (snd st) /\ R <= uval w (fst st) <= G /\ uval w (snd st) = F (uval w (fst st))).
+  pose (m := fun st : list Z * list Z => uval w (fst st) - R).
+  pose (P := fun res : outcome (list Z) => exists r, res = Ret r /\ wf w n r /\ uval w r = R).
+  destruct (run_pow2_ends (fixpoint_down_step f) Inv m P) with (d := depth) (s := (guess, xn)) as (res & Eres & Pres).
+  - intros [x x'] (Wx & Wx' & Hx & Vx') Hm. cbn [fst snd] in *. unfold fixpoint_down_step.
+    rewrite (UC w n x x' Hw Wx Wx'), Vx'.
+    destruct (Z.compare_spec (uval w x) (F (uval w x))) as [E|E|E]; cbn [cmp_gt].
+    + (* x = F x : then x <= R *)
+      unfold P. exists x. split; [reflexivity|]. split; [exact Wx|].
+      destruct (Z_lt_le_dec R (uval w x)) as [Hgt|]; [|lia]. pose proof (Hlt (uval w x) ltac:(lia)). lia.
+    + unfold P. exists x. split; [reflexivity|]. split; [exact Wx|].
+      destruct (Z_lt_le_dec R (uval w x)) as [Hgt|]; [|lia]. pose proof (Hlt (uval w x) ltac:(lia)). lia.
+    + pose proof (Hge (uval w x) ltac:(lia)) as Hge'.
+      destruct (Hcl x' Wx' ltac:(lia)) as (x'' & Ex'' & Wx'' & Vx''). rewrite Ex''.
+      unfold Inv, m. cbn [fst snd]. split; [split; [exact Wx'|split; [exact Wx''|split; [lia|exact Vx'']]]|lia].
+  - unfold Inv. cbn [fst snd]. fold G. split; [exact Wg|split; [exact Wxn|split; [lia|exact Vxn]]].
+  - unfold m. cbn [fst]. fold G. lia.
+  - rewrite Eres. destruct Pres as (r & -> & Wr & Vr). exists r. auto.
+Qed.
+
+(* ================= Roots for BUint ================= *)
+
+Lemma zroot_pos k A : 1 <= k -> 1 <= A -> 1 <= zroot k A.
+Proof.
+  intros Hk HA. destruct (zroot_spec k A Hk ltac:(lia)) as (H0 & H1 & H2).
+  destruct (Z.eq_dec (zroot k A) 0) as [E|]; [|lia]. rewrite E in H2. rewrite Z.add_0_l, Z.pow_1_l in H2 by lia. lia.
+Qed.
+
+Section Roots.
+  Context (D : deps_roots).
+
+  Let DU : deps_udiv := {| du_divrem := dr_divrem D |}.
+
+  (* common tail of sqrt / cbrt / nth_root above 2^128: the Newton iteration from 2^(bits/k+1) *)
+  Lemma root_newton_ok w n a k f : 0 < w -> wf w n a -> 2 <= k -> 0 < uval w a -> k < bits_of w a ->
+    closure_ok w n f (newton k (uval w a)) (zroot k (uval w a)) (2 ^ (bits_of w a / k + 1)) ->
+    exists r, root_newton w a k f = Some (Ret r) /\ wf w n r /\ uval w r = zroot k (uval w a).
+  Proof.
+    intros Hw Ha Hk HA Hkb Hcl.
+    destruct (dr_bits D w n a Hw Ha HA) as ((Hbl0 & HblN) & HA1 & HA2).
+    set (A := uval w a) in *. set (bl := bits_of w a) in *.
+    set (mb := bl / k + 1) in *.
+    pose proof (Z.div_mod bl k ltac:(lia)) as Hdm. pose proof (Z.mod_pos_bound bl k ltac:(lia)) as Hmb.
+    assert (Hq0 : 0 <= bl / k) by (apply Z.div_pos; lia).
+    assert (Hmb1 : 1 <= mb < bits w n) by (unfold mb; nia).
+    unfold root_newton. rewrite (wf_length _ _ _ Ha). fold bl. fold mb.
+    destruct (dr_p2 D w n mb Hw ltac:(lia)) as (guess & Eg & Wg & Vg). rewrite Eg.
+    destruct (zroot_spec k A ltac:(lia) ltac:(lia)) as (HR0 & HR1 & HR2).
+    pose proof (zroot_pos k A ltac:(lia) ltac:(lia)) as HR.
+    set (R := zroot k A) in *.
+    assert (HGR : R < 2 ^ mb).
+    { apply pow_lt_inv with k; [lia|lia|apply Z.pow_nonneg; lia|].
+      rewrite <- Z.pow_mul_r by lia.
+      assert (2 ^ bl <= 2 ^ (mb * k)) by (apply Z.pow_le_mono_r; unfold mb; nia). lia. }
+    apply (fixpoint_ok (dr_ucmp D) (fixpoint_depth w n) w n guess mb f (newton k A) R Hw Wg HR0); rewrite ?Vg.
+    - exact HGR.
+    - exact Hcl.
+    - intros x Hx. apply newton_ge_root; lia.
+    - intros x Hx. apply newton_lt with R; lia.
+    - unfold fixpoint_depth. rewrite Z2Nat.id by lia.
+      assert (2 ^ mb <= 2 ^ (bits w n + 1)) by (apply Z.pow_le_mono_r; lia). lia.
+  Qed.
+
+  (* the primitive shortcut: below 2^128 the result is the primitive's (specified) root *)
+  Lemma root_shortcut_ok w n a k slow : 0 < w -> u128_width_ok w -> (0 < n)%nat -> wf w n a -> 1 <= k ->
+    (2 ^ 128 <= uval w a -> exists r, slow = Some (Ret r) /\ wf w n r /\ uval w r = zroot k (uval w a)) ->
+    exists r, root_shortcut w a k slow = Some (Ret r) /\ wf w n r /\ uval w r = zroot k (uval w a).
+  Proof.
+    intros Hw Hok Hn Ha Hk Hslow. unfold root_shortcut.
+    rewrite (U_to_u128_spec w n a Hw Hok Hn Ha).
+    pose proof (uval_bounds w n a ltac:(lia) Ha) as Hb.
+    destruct (Z.ltb_spec (uval w a) (2 ^ 128)) as [Hlt|Hge].
+    - rewrite (wf_length _ _ _ Ha). unfold flift, U_from_u128.
+      pose proof (zroot_le k (uval w a) Hk ltac:(lia)) as Hle.
+      destruct (zroot_spec k (uval w a) Hk ltac:(lia)) as (H0 & _).
+      destruct (U_from_uint_spec w n 128 (zroot k (uval w a)) Hw ltac:(lia) ltac:(lia) ltac:(lia)) as (r & Er & Wr & Vr).
+      rewrite Er. exists r. auto.
+    - apply Hslow. exact Hge.
+  Qed.
+
+  Lemma big_bits w n a : 0 < w -> wf w n a -> 2 ^ 128 <= uval w a ->
+    128 < bits_of w a <= bits w n /\ 2 ^ (bits_of w a - 1) <= uval w a < 2 ^ bits_of w a.
+  Proof.
+    intros Hw Ha Hge. assert (H0 : 0 < uval w a) by (assert (0 < 2 ^ 128) by (apply Z.pow_pos_nonneg; lia); lia).
+    destruct (dr_bits D w n a Hw Ha H0) as ((Hb0 & HbN) & H1 & H2).
+    split; [|split; assumption]. split; [|exact HbN].
+    destruct (Z_lt_le_dec 128 (bits_of w a)) as [|Hle]; [assumption|].
+    assert (2 ^ bits_of w a <= 2 ^ 128) by (apply Z.pow_le_mono_r; lia). lia.
+  Qed.
+
+  Lemma Mod_as_pow w n : Mod w n = 2 ^ bits w n.
+  Proof. reflexivity. Qed.
+
+  (* ---- sqrt ---- *)
+  Lemma sqrt_closure dbg w n a : 0 < w -> wf w n a -> 2 ^ 128 <= uval w a ->
+    closure_ok w n (sqrt_step dbg w a) (newton 2 (uval w a)) (zroot 2 (uval w a)) (2 ^ (bits_of w a / 2 + 1)).
+  Proof.
+    intros Hw Ha Hge s Ws Hs.
+    destruct (big_bits w n a Hw Ha Hge) as ((Hbl & HblN) & HA1 & HA2).
+    set (A := uval w a) in *. set (bl := bits_of w a) in *.
+    destruct (zroot_spec 2 A ltac:(lia) ltac:(lia)) as (HR0 & HR1 & HR2).
+    pose proof (zroot_pos 2 A ltac:(lia) ltac:(lia)) as HR. set (R := zroot 2 A) in *.
+    set (S := uval w s) in *.
+    unfold sqrt_step.
+    destruct (U_div_ok DU w n a s Hw Ha Ws ltac:(fold S; lia)) as (q & Eq & Wq & Vq). rewrite Eq. cbn [obind].
+    fold A S in Vq.
+    assert (HqS : S * (A / S) <= A < S * (A / S) + S).
+    { pose proof (Z.div_mod A S ltac:(lia)). pose proof (Z.mod_pos_bound A S ltac:(lia)). lia. }
+    assert (Hqb : A / S <= S + 2).
+    { rewrite !Z.pow_2_r in *. nia. }
+    (* 2^(bl/2+1) <= 2^(N-2) *)
+    assert (HG : 4 * 2 ^ (bl / 2 + 1) <= Mod w n).
+    { rewrite Mod_as_pow. change 4 with (2 ^ 2). rewrite <- Z.pow_add_r by (try lia; pose proof (Z.div_pos bl 2); lia).
+      apply Z.pow_le_mono_r; [lia|]. pose proof (Z.div_mod bl 2 ltac:(lia)). pose proof (Z.mod_pos_bound bl 2 ltac:(lia)). lia. }
+    assert (HG2 : 2 <= 2 ^ (bl / 2 + 1)).
+    { change 2 with (2 ^ 1) at 1. apply Z.pow_le_mono_r; [lia|]. pose proof (Z.div_pos bl 2); lia. }
+    destruct (dr_add D dbg w n s q Hw Ws Wq) as (t & Et & Wt & Vt).
+    { rewrite Vq. fold S. lia. }
+    rewrite Et. cbn [obind].
+    assert (Hbits : 1 < bits w n) by lia.
+    rewrite (U_shr_unfold dbg w n t 1 Wt ltac:(lia)).
+    destruct (dr_shr D w n t 1 Hw Wt ltac:(lia)) as (Wr & Vr).
+    eexists. split; [reflexivity|]. split; [exact Wr|].
+    rewrite Vr, Vt, Vq. fold S. unfold newton. change (2 - 1) with 1. rewrite !Z.pow_1_r, Z.mul_1_l. reflexivity.
+  Qed.
+
+  Theorem TU_sqrt_ok dbg w n a : 0 < w -> u128_width_ok w -> (0 < n)%nat -> wf w n a ->
+    exists r, TU_sqrt dbg w a = Some (Ret r) /\ wf w n r /\ uval w r = zroot 2 (uval w a).
+  Proof.
+    intros Hw Hok Hn Ha. unfold TU_sqrt.
+    destruct (check_zero_or_one a) eqn:Ec.
+    - exists a. split; [reflexivity|]. split; [exact Ha|].
+      destruct (check_zero_or_one_true w n a Hw Ha Ec) as [E|E]; rewrite E; reflexivity.
+    - apply root_shortcut_ok; try assumption; [lia|]. intros Hge.
+      destruct (big_bits w n a Hw Ha Hge) as ((Hbl & HblN) & HA1 & HA2).
+      assert (0 < 2 ^ 128) by (apply Z.pow_pos_nonneg; lia).
+      apply root_newton_ok; [exact Hw|exact Ha|lia|lia|lia|apply sqrt_closure; assumption].
+  Qed.
+End Roots.
